@@ -31,7 +31,11 @@ META = dict(
                "correspondence (toy graphs as real LinkedVariables, exact integers/inf/NaN); WF g is a hypothesis of the generic theorems, PROVED from C15's theorems for every graph built by the "
                "modelled DAG constructor (C02_full_revert_built, C02_pop_step_built) and recomputed by wf_b on every graph of the tie; "
                "F_mix (row-wise node functions) is PROVED from C07's op-kind semantics for every op-kind and any number of parents "
-               "(C02_F_mix_opkinds) and for one-parent entry-wise toy functions, and the closure condition on the reads follows from the "
+               "(C02_F_mix_opkinds), for one-parent entry-wise toy functions and, on n-d values (per-individual values with a trailing shape, plain or weighted, "
+               "right_broadcasting both ways: State/StateNdExec.v), for the whole entry-wise toy vocabulary incl. multi-parent functions of weighted parents "
+               "(C02_partial_revert_nd); what revert(subset, right_broadcasting) does to such a value — rows, last-axis entries, refusals, the shape-changing "
+               "calls torch accepts outside the contract — is proved (C02_nd_*) and compared with 1 588 directed calls on real states inside Coq; "
+               "known finding: a side without weight takes the other side's weight (C02_one_sided_weight_refuted); and the closure condition on the reads follows from the "
                "well_typed checker (C02_partial_revert_well_typed, C02_ind_step_well_typed: docs/Compose.md); for other node functions "
                "F_mix stays a hypothesis, validated by execution on multi-parent toy graphs and, bit-for-bit, on the real model graphs; "
                "is_variable_set on a derived variable is exempt from 'as if never proposed' (it reports cache content); the "
@@ -52,6 +56,11 @@ OBLIGATIONS = [
     "C02_ind_step_well_typed", "C02_later_history_opkinds", "C02_compose_examples",
     # weighted values (State/StateWExec.v): mix = _select = row-wise selection of value AND weight
     "C02_partial_revert_weighted", "C02_weighted_select_rows",
+    # n-d values (State/StateNdExec.v): per-individual values with a trailing shape, right_broadcasting both ways, refusals
+    "C02_nd_select_rows", "C02_nd_weighted_select_rows", "C02_nd_last_axis", "C02_nd_refused_bad_shapes", "C02_nd_refused_by_torch",
+    "C02_nd_contract_needs_fit", "C02_nd_contract_is_torch", "C02_nd_contract_keeps_shape", "C02_nd_select_examples",
+    # F_mix proved for the n-d toy vocabulary (multi-parent entry-wise functions, weighted parents): no hypothesis on node functions
+    "C02_partial_revert_nd", "C02_partial_revert_nd_rows", "C02_one_sided_weight_refuted",
 ]
 
 HEADER = ("From Coq Require Import ZArith List Bool.\n"
@@ -1372,6 +1381,11 @@ def main(run: Run):
     except Exception as e:  # noqa
         run.broken("directed-shapes", f"{type(e).__name__}: {e}")
     try:
+        T.directed_select(run)
+    except Exception as e:  # noqa
+        import traceback
+        run.broken("directed-nd-select", f"{type(e).__name__}: {e}\n{traceback.format_exc()[-1500:]}")
+    try:
         toy_steps(run, 400 if thorough else 120)
     except Exception as e:  # noqa
         import traceback
@@ -1418,6 +1432,26 @@ def replay(run: Run, path: str):
     torch.set_num_threads(2)
     d = json.load(open(path))
     inp = d.get("input") or {}
+    if "select" in inp:
+        c = inp["select"]
+        observed, exc, fork_none = T.exec_select(c)
+        print(f"x := {c['old']} (forked); x := {c['cur']}; revert({c['mask']}, right_broadcasting={c['rb']})")
+        print(f"  -> x = {observed}" + (f"   raised {exc}" if exc else "") + f"   _last_fork cleared: {fork_none}")
+        wrong = False
+        if T.select_contract(c["old"], c["cur"], c["mask"], c["rb"]):
+            ref = T.select_reference(c["old"], c["cur"], c["mask"], c["rb"])
+            got = None if observed is None else {k: observed.get(k) for k in ref}
+            print(f"  documented rows: {ref}")
+            wrong = got != ref or not fork_none
+        masked = T.one_sided_trace(c, observed)
+        if masked:
+            print(f"  entries taken from the side WITHOUT weight that now have weight 0 (index paths): {masked}")
+            wrong = True
+        r = run.vm_bad_indices("replay", T.SELECT_HEADER, T.SELECT_CASE_TYPE, [T.select_case_coq(c, observed)], "check_nselect")
+        print("model (nselect_torch / nselect) agrees with the implementation on this call:", r == [])
+        wrong = wrong or bool(r)
+        print("REPLAY", "FAILS" if wrong else "passes")
+        return 1 if wrong else 0
     if "shape" in inp:
         r = shape_case(inp["shape"], inp["mask"])
         print(f"x -> y = 2x+1 -> z = sum(y), values of shape {inp['shape']}, revert(mask={inp['mask']}):", "as expected" if r is None else f"{r[1]}\n expected {r[2]}\n observed {r[3]}")
